@@ -4,7 +4,9 @@ right access class.
 1. PathWalkMC: TLC explores the kernel walk state machine from every (forest, start directory, path string,
    follow/no-follow) within the bound: terminates, deterministic, equals the operator Resolve, idempotent.
 2. PathWalk_Gen: TLC decodes/enumerates the cases (walk family W, open-flag family K, argument family A,
-   memory-placement family M: where the string lies relative to a page boundary of the caller's memory).
+   memory-placement family M: where the string lies relative to a page boundary of the caller's memory,
+   name family N: names that look like something else -- " (deleted)" suffix, leading ".." -- in the string,
+   the cwd, the directory behind a descriptor).
 3. `pathwalk run`: the forests are materialised; the C probe runs the script twice: directly, reporting the
    kernel's own answer for each (descriptor, name) pair, and under the REAL ptrace runner with a recording
    handler, performing every scripted raw system call.
@@ -96,7 +98,13 @@ def key_of(verdict, o, arg):
         return "class:%s:arg%d:acc%d:%s" % (c["sc"], arg, c["acc"], "+".join(c["fl"]) or "none")
     mem = ps.get("mem", {}).get("b", "static")
     place = "" if mem == "static" else ":@%s%s" % (mem, "+gap" if ps["mem"].get("gap") else "")
-    return "%s:%s:arg%d:%s:%s%s" % (verdict, c["sc"], arg, dc, feature(ps), place)
+    # a name class of the skeleton (" (deleted)" suffix, leading "..") in the name or in the directory it starts from
+    special = lambda comps: any(" " in x or (x.startswith("..") and len(x) > 2) for x in comps)
+    where = list(ps["comps"]) + list(ps.get("pdir", []))
+    if not ps["abs"]:
+        where += list(d["dirp"]) if d["lo"] == "fd" else list(c["cwd"])
+    names = ":names" if special(where) else ""
+    return "%s:%s:arg%d:%s:%s%s%s" % (verdict, c["sc"], arg, dc, feature(ps), place, names)
 
 
 def run(ctx):
